@@ -1,7 +1,7 @@
 (* C14 -- hint files: faithful round-trip, total lookup, correct merge.
-   Property theorems only; proofs live in proofs/HintProofs.v. *)
+   Property theorems only; proofs live in proofs/HintProofs.v (round trip) and proofs/HintLookup.v (lookup). *)
 From Coq Require Import NArith ZArith List Bool String.
-From GB Require Import Consts Words HintFile HintProofs.
+From GB Require Import Consts Words HintFile HintProofs HintLookup.
 Import ListNotations.
 Open Scope N_scope.
 
@@ -12,6 +12,36 @@ Theorem C14_hint_roundtrip : forall items interval ds,
   hint_read_all (hint_write items interval ds) = Some (items, ds).
 Proof. exact hint_roundtrip. Qed.
 Print Assumptions C14_hint_roundtrip.
+
+(* TOTAL LOOKUP, byte level, as the code performs it (sparse index loaded back from the file, sort.Search over it, seek
+   to the preceding index entry, scan): for ALL item lists sorted by hash (the writer's input is always sorted by
+   (hash, key)), ALL index intervals and ALL (hash, key) queries the lookup returns the first item with that hash
+   and key if there is one and NOT-FOUND otherwise -- never an error.  Needs the reader's logical offset to follow
+   the seek (Consts.hint_get_offset_synced, translated from store/hintindex.go: the repair of F1); with the flag
+   off the proof does not go through and C14_absent_above_unsynced_refuted below shows why. *)
+Theorem C14_lookup_total : forall items interval ds h key,
+  Forall valid_item items -> hsorted items -> lenN items < 4294967296 -> ds < 4294967296 ->
+  index_get (hint_write items interval ds) h key =
+  match find (matches h key) items with Some it => GFound it | None => GNotFound end.
+Proof. exact lookup_total. Qed.
+Print Assumptions C14_lookup_total.
+
+(* ... in particular on every file HintBuffer.Dump writes (any buffer content, sorted by the dump): found iff present,
+   never an error *)
+Theorem C14_dumped_lookup_total : forall l interval ds h key,
+  Forall valid_item l -> lenN l < 4294967296 -> ds < 4294967296 ->
+  index_get (buf_dump l interval ds) h key <> GErr /\
+  (forall it, index_get (buf_dump l interval ds) h key = GFound it -> In it l /\ hi_hash it = h /\ hi_key it = key) /\
+  ((exists it, In it l /\ hi_hash it = h /\ hi_key it = key) -> exists it, index_get (buf_dump l interval ds) h key = GFound it).
+Proof. exact dumped_lookup_total. Qed.
+Print Assumptions C14_dumped_lookup_total.
+
+(* the sparse index read back by loadHintIndex is the index the writer built *)
+Theorem C14_index_roundtrip : forall items interval ds,
+  Forall valid_item items -> lenN items < 4294967296 -> ds < 4294967296 ->
+  load_index (hint_write items interval ds) = Some (mkHM (16 + items_size items) (w32 (lenN items)) ds, hint_index_of items interval).
+Proof. exact load_index_write. Qed.
+Print Assumptions C14_index_roundtrip.
 
 (* Finding F1 (repaired by a fix: commit): with the reader's logical offset NOT following the
    seek (the code before the repair), the lookup of an absent key above all stored hashes in a
